@@ -177,6 +177,8 @@ type Driver struct {
 	rt        *core.Runtime
 	psdir     string
 	prevDir   string // canonical directory of linked-in results of an earlier run
+	vanished  int    // jobs that died without a trace
+	aged      int    // how often the heartbeat time-out was let pass
 	psid      string
 	mu        sync.Mutex
 	jobs      []*job          // submitted, in submission order
@@ -844,6 +846,14 @@ func (d *Driver) end(j *job) {
 		}
 		writeFile(path.Join(md, "_complete"), []byte("done"))
 		d.journal(j, "complete")
+	case "vanish-heartbeat":
+		// the job sends a heartbeat and then dies without a trace (node lost, SIGKILL of the
+		// wrapper): nothing but the heartbeat time-out can tell mrp
+		writeFile(path.Join(md, "_heartbeat"), []byte("alive"))
+		d.journal(j, "heartbeat")
+		d.mu.Lock()
+		d.vanished++
+		d.mu.Unlock()
 	case "errors", "unknown-job":
 		writeFile(path.Join(md, "_errors"), []byte("injected failure of "+j.key))
 		d.journal(j, "errors")
@@ -1287,6 +1297,15 @@ func (d *Driver) loop(ctx context.Context) {
 			idle = 0
 		} else {
 			idle++
+		}
+		if idle > 4 && len(d.envActions()) == 0 && d.vanished > 0 && d.aged < 3 {
+			// nothing moves any more and a job has vanished: let more than the
+			// heartbeat time-out pass
+			d.aged++
+			d.tr.Emit("TimePasses", "minutes", 61)
+			d.ps.VerifAgeHeartbeats(61 * time.Minute)
+			idle = 0
+			continue
 		}
 		if idle > 6 && len(d.envActions()) == 0 {
 			d.res.State = string(state)
